@@ -191,7 +191,11 @@ impl Database {
             pendding_conflict.len()
         );
         for conflict in pendding_conflict {
-            let conflict_command = self.get_value(conflict.clone()).unwrap().value;
+            // The record may have been removed since it was listed (another arbiter registering)
+            let conflict_command = match self.get_value(conflict.clone()) {
+                Some(conflict_value) => conflict_value.value,
+                None => continue,
+            };
             if conflict_command.starts_with(RESOLVED_KEY_PREFIX) {
                 log::debug!("Conflict {} already resolved, remove the key", conflict);
                 self.remove_value(conflict.clone());
@@ -206,7 +210,7 @@ impl Database {
         let pendding_conflict = self.list_conflicts_keys(key);
         let values = pendding_conflict
             .iter()
-            .map(|key| self.get_value(key.clone()).unwrap().value)
+            .filter_map(|key| self.get_value(key.clone()).map(|value| value.value))
             .collect::<Vec<_>>();
         values
             .iter()
@@ -232,7 +236,7 @@ impl Database {
             let pendding_conflict = self.list_conflicts_keys(&change.key);
             let values = pendding_conflict
                 .iter()
-                .map(|key| self.get_value(key.clone()).unwrap().value)
+                .filter_map(|key| self.get_value(key.clone()).map(|value| value.value))
                 .collect::<Vec<_>>();
             log::debug!(
                 "has_pendding_conflict conflict change key: {} version : {}, list: {}",
